@@ -620,6 +620,123 @@ theorem client_service_mode_scoped (ps : List PA) (root clientNs : String) (impo
   unfold bestEffortServiceMode sidecarView
   rw [filterNs_namespaceMode _ _ ns hn]
 
+/-! ## Clause 2d: the COMPOSED client decision (cluster TLS socket AND endpoint label)
+
+`client_agrees` / `client_agrees_scoped` are about `checkMtlsEnabled` alone.  What the client proxy
+does is the conjunction with the cluster-side decision, which is taken from the namespace/mesh level
+only (`BestEffortInferServiceMTLSMode`).  The full statement is FALSE for the code (finding F13, a
+known limitation of the "best effort" inference): see `client_agrees_full_witness`. -/
+
+/-- The namespace-level mode: the effective mode of a workload of the namespace no selector policy selects. -/
+def nsLevelMode (ps : List PA) (root ns : String) : MTLS := effectiveMode ps root { ns := ns, labels := [] } 0
+
+/-- Closed form of the composed decision. -/
+theorem clientSendsMTLS_eq {ps : List PA} (hu : UniqueKeys ps) (root clientNs : String) (importedNs : List String)
+    (w : Workload) (hs : w.svcNs = []) (hw : w.ns ∈ clientNs :: root :: importedNs) (port : Nat) :
+    clientSendsMTLS (sidecarView root ps clientNs importedNs) w port = true ↔
+      (nsLevelMode ps root w.ns ≠ .disable ∧ effectiveMode ps root w port ≠ .disable) := by
+  unfold clientSendsMTLS
+  rw [Bool.and_eq_true, client_agrees_scoped hu root clientNs importedNs w hs hw port,
+    client_service_mode_scoped ps root clientNs importedNs w.ns hw]
+  have hbe := namespace_mode_agrees hu root { ns := w.ns, labels := [] } (noSelectorMatch_of_no_labels ps w.ns) 0
+  simp only at hbe
+  rw [hbe]
+  have hne : effectiveMode ps root { ns := w.ns, labels := [] } 0 ≠ .unknown := effectiveMode_total _ _ _ _
+  unfold nsLevelMode clusterHasAutoMTLS
+  cases hm : effectiveMode ps root { ns := w.ns, labels := [] } 0 <;> simp_all
+
+/-- The full statement of "client-side automatic mTLS uses the same mode per port" for the composed decision. -/
+def ClientAgreesFull : Prop :=
+  ∀ (ps : List PA) (root clientNs : String) (importedNs : List String) (w : Workload) (port : Nat),
+    UniqueKeys ps → w.svcNs = [] → w.ns ∈ clientNs :: root :: importedNs →
+    (clientSendsMTLS (sidecarView root ps clientNs importedNs) w port = true ↔ effectiveMode ps root w port ≠ .disable)
+
+/-- Proved part 1 (soundness): the client never originates mutual TLS towards a DISABLE port. -/
+theorem client_agrees_composed_sound {ps : List PA} (hu : UniqueKeys ps) (root clientNs : String)
+    (importedNs : List String) (w : Workload) (hs : w.svcNs = []) (hw : w.ns ∈ clientNs :: root :: importedNs)
+    (port : Nat) (h : clientSendsMTLS (sidecarView root ps clientNs importedNs) w port = true) :
+    effectiveMode ps root w port ≠ .disable :=
+  ((clientSendsMTLS_eq hu root clientNs importedNs w hs hw port).mp h).2
+
+/-- Proved part 2: full agreement whenever the namespace-level mode is not DISABLE. -/
+theorem client_agrees_composed_partial {ps : List PA} (hu : UniqueKeys ps) (root clientNs : String)
+    (importedNs : List String) (w : Workload) (hs : w.svcNs = []) (hw : w.ns ∈ clientNs :: root :: importedNs)
+    (port : Nat) (hns : nsLevelMode ps root w.ns ≠ .disable) :
+    clientSendsMTLS (sidecarView root ps clientNs importedNs) w port = true ↔ effectiveMode ps root w port ≠ .disable := by
+  rw [clientSendsMTLS_eq hu root clientNs importedNs w hs hw port]
+  exact ⟨fun h => h.2, fun h => ⟨hns, h⟩⟩
+
+/-- F13 witness: namespace policy DISABLE, workload policy STRICT. -/
+def f13Policies : List PA :=
+  [ { name := "default", ns := "ns1", time := 100, selector := none, mtls := .disable, ports := [] },
+    { name := "wl", ns := "ns1", time := 200, selector := some [("app", "a")], mtls := .strict, ports := [] } ]
+
+/-- **The full statement is false** (F13): with a namespace-level DISABLE policy and a narrower STRICT
+    workload policy the server's port 80 is STRICT, EDS keeps the endpoint's tlsMode label, but the cluster
+    has no TLS transport socket: the client sends plaintext and the STRICT inbound listener rejects it. -/
+theorem client_agrees_full_witness : ¬ ClientAgreesFull := by
+  intro h
+  have hw : ({ ns := "ns1", labels := [("app", "a")] } : Workload).ns ∈ "ns2" :: "istio-system" :: ["ns1"] := by decide
+  have h1 := h f13Policies "istio-system" "ns2" ["ns1"] { ns := "ns1", labels := [("app", "a")] } 80 (by decide) rfl hw
+  have h2 := (clientSendsMTLS_eq (ps := f13Policies) (by decide) "istio-system" "ns2" ["ns1"]
+    { ns := "ns1", labels := [("app", "a")] } rfl hw 80).mp (h1.mpr (by decide))
+  exact h2.1 (by decide)
+
+/-! ## Clause 2e: the version (`GetVersion`, part of the EDS and CDS cache keys) tracks the policies
+
+`aggregateVersion` is a hash of the multiset of `UID.ResourceVersion` of the configs.  Assumptions,
+both outside the model: the hash is collision-free on what it is fed, and Kubernetes never reuses a
+(UID, ResourceVersion) for a different content (`RvDeterminesContent`).  Then: equal versions imply
+the same set of policies and hence the same effective mode everywhere - a cached client-side
+decision keyed by the version is never stale. -/
+
+/-- Same (namespace, name, resourceVersion) means same object. -/
+def RvDeterminesContent (ps ps' : List PA) : Prop :=
+  ∀ p ∈ ps, ∀ q ∈ ps', p.ns = q.ns → p.name = q.name → p.rv = q.rv → p = q
+
+theorem uniqueKeys_nodup {ps : List PA} (hu : UniqueKeys ps) : ps.Nodup := by
+  unfold UniqueKeys at hu
+  exact List.Pairwise.imp (fun {a b} h hab => h (by rw [hab]; exact ⟨rfl, rfl⟩)) hu
+
+theorem mem_of_version_subset {ps ps' : List PA} (root : String)
+    (hrv : RvDeterminesContent ps ps')
+    (hv : ∀ k, k ∈ (initAuthn root ps).version → k ∈ (initAuthn root ps').version) :
+    ∀ p ∈ ps, p ∈ ps' := by
+  intro p hp
+  have hk : (p.ns, p.name, p.rv) ∈ (initAuthn root ps).version := by
+    simp only [initAuthn, versionKeys, List.mem_map]
+    exact ⟨p, mem_sorted.mpr hp, rfl⟩
+  have := hv _ hk
+  simp only [initAuthn, versionKeys, List.mem_map, Prod.mk.injEq] at this
+  obtain ⟨q, hq, h1, h2, h3⟩ := this
+  have hq' : q ∈ ps' := mem_sorted.mp hq
+  rw [hrv p hp q hq' h1.symm h2.symm h3.symm]
+  exact hq'
+
+/-- **version_tracks_spec.**  If two policy sets get the same version, they are the same set, and every
+    resolver returns the same mode for every workload and port. -/
+theorem version_tracks_spec {ps ps' : List PA} (hu : UniqueKeys ps) (hu' : UniqueKeys ps') (root : String)
+    (hrv : RvDeterminesContent ps ps')
+    (hv : ((initAuthn root ps).version).Perm ((initAuthn root ps').version)) :
+    ps.Perm ps' ∧ ∀ (w : Workload) (port : Nat), effectiveMode ps root w port = effectiveMode ps' root w port := by
+  have hrv' : RvDeterminesContent ps' ps := fun q hq p hp h1 h2 h3 => (hrv p hp q hq h1.symm h2.symm h3.symm).symm
+  have h1 := mem_of_version_subset root hrv (fun k hk => hv.mem_iff.mp hk)
+  have h2 := mem_of_version_subset root hrv' (fun k hk => hv.mem_iff.mpr hk)
+  have hperm : ps.Perm ps' :=
+    (List.perm_ext_iff_of_nodup (uniqueKeys_nodup hu) (uniqueKeys_nodup hu')).mpr (fun a => ⟨h1 a, h2 a⟩)
+  exact ⟨hperm, fun w port => effectiveMode_order_independent hu hperm root w port⟩
+
+/-- A spec edit (with the resource-version bump Kubernetes performs) changes the version. -/
+theorem version_changes_on_edit {ps ps' : List PA} (hu : UniqueKeys ps) (hu' : UniqueKeys ps') (root : String)
+    (hrv : RvDeterminesContent ps ps') (w : Workload) (port : Nat)
+    (hdiff : effectiveMode ps root w port ≠ effectiveMode ps' root w port) :
+    ¬ ((initAuthn root ps).version).Perm ((initAuthn root ps').version) :=
+  fun hv => hdiff ((version_tracks_spec hu hu' root hrv hv).2 w port)
+
+/-- The filtered view's version covers exactly the configs it keeps. -/
+theorem filterNs_version (a : Authn) (nss : List String) :
+    (a.filterNs nss).version = versionKeys (a.filterNs nss).peerAuths := rfl
+
 /-! ## Non-vacuity: concrete policies meeting the hypotheses, with ties and several per level -/
 
 def exPolicies : List PA :=
